@@ -380,6 +380,14 @@ def lw13(prog, rr):
     fv = prog.method("ExprBinModel", "val")
     used = {}
     for f in (fe, fv):
+        # operand locals: assigned from the evaluator's result (`self.val`) or from an operand's `.val()`
+        opnd = set()
+        for n in walk_local(f.node):
+            if isinstance(n, ast.Assign) and len(n.targets) == 1 and isinstance(n.targets[0], ast.Name):
+                v = n.value
+                if (isinstance(v, ast.Attribute) and v.attr == "val") or \
+                        (isinstance(v, ast.Call) and isinstance(v.func, ast.Attribute) and v.func.attr == "val"):
+                    opnd.add(n.targets[0].id)
         for n in walk_local(f.node):
             ops = []
             if isinstance(n, ast.BinOp) and isinstance(n.left, ast.Name):
@@ -389,7 +397,7 @@ def lw13(prog, rr):
             elif isinstance(n, ast.UnaryOp) and isinstance(n.op, ast.Invert) and isinstance(n.operand, ast.Name):
                 ops = [ast.Invert]
             for o in ops:
-                if o in PYOP_DUNDER and any(x.endswith(("_val", "lhs", "rhs")) or x in ("lhs", "rhs") for x in names_in(n) if "." not in x):
+                if o in PYOP_DUNDER and any(x in opnd for x in names_in(n) if "." not in x):
                     used.setdefault(PYOP_DUNDER[o], (f, n))
     rr.require(len(used) >= 10, "operator uses in the constant evaluators not recognised (%d)" % len(used))
     for d, (f, n) in sorted(used.items()):
